@@ -50,6 +50,12 @@ def cases(tier, rng):
                        "impostor 0 id=%s as=%s" % (ident, imp), "conn 0", "xchg 0", "xchg 3", "monitor"]
                 out.append("i%d rt %s mon / %s" % (k, t, " / ".join(ops)))
                 k += 1
+        # connections that are reset (RST) before the listener has accepted them: each is an accept failure of its own, the
+        # listener keeps accepting (single-threaded runtime, so that the resets precede the accept loop's next turn)
+        for n_r in (1, 3, 8):
+            ops = ["bind tcp4", "conn 0", "rstburst 0 n=%d" % n_r, "conn 0", "xchg 0", "xchg 1", "rstburst 0 n=2", "conn 0", "xchg 2", "monitor"]
+            out.append("r%d rt %s mon ct / %s" % (k, t, " / ".join(ops)))
+            k += 1
         # many simultaneous misbehaving clients (k is not bounded by the property: any fixed cap on pending handshakes is a violation)
         for transport in (("tcp4", "ipc") if tier == "thorough" else (rng.choice(["tcp4", "ipc"]),)):
             for m in ((17, 33, 64, 130) if tier == "thorough" else (20, 48)):
@@ -100,7 +106,8 @@ def judge(line, obs, orc):
     good = sum(1 for op in ops if op[0] == "conn")
     mon = [tk for op, tk in zip(ops, toks) if op[0] == "monitor"][0][4:]
     names = [] if mon == "-" else mon.split(",")
-    if not (nfail <= names.count("AcceptFailed") <= nfail + either):
+    maybe_fail = sum(int(op[2][2:]) for op in ops if op[0] == "rstburst")
+    if not (nfail <= names.count("AcceptFailed") <= nfail + either + maybe_fail):
         return "monitor reports %d accept failures, the handshake model refuses %d of the misbehaving clients (%s)" % (names.count("AcceptFailed"), nfail, mon)
     if not (good + nacc - either <= names.count("Accepted") <= good + nacc):
         return "monitor reports %d accepted peers, expected %d (%s)" % (names.count("Accepted"), good + nacc, mon)
